@@ -10,13 +10,14 @@ ENGINE = "gen_closure_exits"
 
 RULE = ("programs = array::map! / map_! / from_fn! / from_fn_! (typed and untyped forms) whose closure performs an early exit at "
         "element k of n (n in 1..=4): break, continue, break/continue to a label outside the macro, return, `?`, panic!, "
-        "or none (control); element types: a Copy stamp struct and a ledger-tracked Drop type; the closure counts its calls and "
+        "or none (control); closure parameter forms `x`, `x: T`, `mut x`, `ref mut x` (the closure changes its own parameter) and `ref x`; element types: a Copy stamp struct and a ledger-tracked Drop type; the closure counts its calls and "
         "panics after 10 000 calls so that looping is observed as a counted panic; each program is compiled alone (a compile "
         "error is an allowed outcome) and, if it compiles, run under catch_unwind; oracle: the outcome must be one of {does not "
         "compile, panics, leaves the macro without producing an array (return / ? / labelled break), returns an array whose every "
         "element carries the magic stamp and the index the closure wrote}; a returned array with any other content is a "
-        "violation; controls (no exit) must return std's array; non-trivial = an exit at 0 < k < n or at k = n-1, or a Drop "
-        "element type, counted per distinct program")
+        "violation; controls (no exit) must return std's array (with `ref` / `ref mut` parameters a compile error is allowed as "
+        "well); non-trivial = an exit at 0 < k < n or at k = n-1, or a Drop element type, or a closure that mutates its "
+        "parameter, counted per distinct program")
 
 PRELUDE = r'''
 #![allow(unused, unreachable_code, clippy::all)]
@@ -75,28 +76,49 @@ def exit_code(kind, n, elem):
     raise ValueError(kind)
 
 
-def render(i, macro, exit_kind, n, k, elem):
+PARAMS = ["plain", "typed", "mut_bump", "ref_mut_bump", "ref_read"]
+
+
+def param_forms(var, param, is_map):
+    """(closure parameter, statements binding `v` to the value the closure received)"""
+    ty = "u32" if is_map else "usize"
+    if param == "plain":
+        return var, "let v = %s;" % var
+    if param == "typed":
+        return "%s: %s" % (var, ty), "let v = %s;" % var
+    if param == "mut_bump":  # the closure owns its parameter: changing it must not disturb the macro's loop
+        return "mut %s" % var, "let v = %s; %s += 1;" % (var, var)
+    if param == "ref_mut_bump":
+        return "ref mut %s" % var, "let v = *%s; *%s += 1;" % (var, var)
+    if param == "ref_read":
+        return "ref %s" % var, "let v = *%s;" % var
+    raise ValueError(param)
+
+
+def render(i, macro, exit_kind, n, k, elem, param="plain"):
     ty = "Stamp" if elem == "stamp" else "Tr"
     ctor = "Stamp::new" if elem == "stamp" else "Tr::new"
     view = "view_s" if elem == "stamp" else "view_t"
     ex = exit_code(exit_kind, n, elem)
     if macro in ("map", "map_"):
         inp = "[%s]" % ", ".join("%du32" % (10 + j) for j in range(n))
-        cond = "if x == %du32 { %s }" % (10 + k, ex) if ex else ""
-        body = "{ tick(); %s %s((x - 10) as usize) }" % (cond, ctor)
-        call = "konst::array::%s!(%s, |x| %s)" % (macro, inp, body)
+        pat, bind = param_forms("x", param, True)
+        cond = "if v == %du32 { %s }" % (10 + k, ex) if ex else ""
+        body = "{ tick(); %s %s %s((v - 10) as usize) }" % (bind, cond, ctor)
+        call = "konst::array::%s!(%s, |%s| %s)" % (macro, inp, pat, body)
     else:
-        cond = "if i == %d { %s }" % (k, ex) if ex else ""
-        body = "{ tick(); %s %s(i) }" % (cond, ctor)
+        pat, bind = param_forms("i", param, False)
+        cond = "if v == %d { %s }" % (k, ex) if ex else ""
+        body = "{ tick(); %s %s %s(v) }" % (bind, cond, ctor)
         base = "from_fn" if macro.startswith("from_fn") and not macro.startswith("from_fn_") else "from_fn_"
         if macro in ("from_fn_", "from_fn__typed"):
             base = "from_fn_"
         else:
             base = "from_fn"
         if macro.endswith("typed"):
-            call = "konst::array::%s!([%s; %d] => |i| %s)" % (base, ty, n, body)
+            call = "konst::array::%s!([%s; %d] => |%s| %s)" % (base, ty, n, pat, body)
         else:
-            call = "konst::array::%s!(|i| %s)" % (base, body)
+            call = "konst::array::%s!(|%s| %s)" % (base, pat, body)
     fn = ("fn p_%d() -> Option<Out> {\n    let mut rounds = 0u32;\n    let arr: [%s; %d] = 'outer: loop {\n        rounds += 1;\n        if rounds > 3 { return Some(Out::Left); }\n"
           "        break %s;\n    };\n    Some(%s(arr))\n}" % (i, ty, n, call, view))
     return fn
@@ -110,7 +132,15 @@ def all_programs(seed, tier):
                 for n in ((1, 2, 3) if tier == "quick" else (1, 2, 3, 4)):
                     ks = range(n) if ex != "none" else [0]
                     for k in ks:
-                        out.append((macro, ex, n, k, elem))
+                        out.append((macro, ex, n, k, elem, "plain"))
+    # closure-parameter forms (binding modes): the closure may rebind / mutate its own parameter, as with
+    # <[T;N]>::map and core::array::from_fn; the array must still be std's (or the program must not compile)
+    for macro in MACROS:
+        for param in PARAMS[1:]:
+            for elem in ("stamp", "tr"):
+                for n in (1, 2, 3, 4):
+                    for ex, k in (("none", 0), ("panic", n - 1), ("continue", 0)):
+                        out.append((macro, ex, n, k, elem, param))
     return out
 
 
@@ -128,14 +158,15 @@ def run(prop, tier, seed, out, timeout, miri=False, **kw):
     labels = {"does_not_compile": len(progs) - len(compiling)}
     violations = []
     for i, p in enumerate(progs):
-        if p[1] == "none" and v[i][0] != 0:
+        if p[1] == "none" and p[5] in ("plain", "typed", "mut_bump") and v[i][0] != 0:
             return 2, "[gen_closure_exits] control program does not compile (harness error):\n%s\n%s" % (singles[i], v[i][1][-2000:])
     parts = [PRELUDE]
     calls = []
     for j, i in enumerate(compiling):
-        macro, ex, n, k, elem = progs[i]
+        macro, ex, n, k, elem, param = progs[i]
         parts.append(render(j, *progs[i]))
         calls.append("    judge(%d, %s, std::panic::catch_unwind(p_%d), %d, %s);" % (j, "true" if ex == "break_outer" else "false", j, n, "true" if ex == "none" else "false"))
+        labels["param_" + param] = labels.get("param_" + param, 0) + 1
     parts.append("fn main() {\n    std::panic::set_hook(Box::new(|_| {}));\n" + "\n".join(calls) + "\n    println!(\"DONE\");\n}\n")
     name = "c11_exits" + ("_miri" if miri else "")
     driver.write_bin(name, "\n\n".join(parts))
@@ -159,12 +190,12 @@ def run(prop, tier, seed, out, timeout, miri=False, **kw):
         elif line.startswith("FAIL "):
             j = int(line.split()[1])
             violations.append((progs[compiling[j]], line))
-    nontriv = {p for p in progs if (p[1] != "none" and (p[3] > 0 or p[3] == p[2] - 1)) or p[4] == "tr"}
-    samples = [{"macro": p[0], "exit": p[1], "n": p[2], "k": p[3], "elem": p[4]} for p in progs if p in nontriv][::37][:10]
+    nontriv = {p for p in progs if (p[1] != "none" and (p[3] > 0 or p[3] == p[2] - 1)) or p[4] == "tr" or p[5] in ("mut_bump", "ref_mut_bump")}
+    samples = [{"macro": p[0], "exit": p[1], "n": p[2], "k": p[3], "elem": p[4], "param": p[5]} for p in progs if p in nontriv][::37][:10]
     text = []
     rc = 0
     for p, line in violations[:5]:
-        path = driver.save_replay(prop, ENGINE, "exit", {"property": prop, "engine": ENGINE, "case": {"macro": p[0], "exit": p[1], "n": p[2], "k": p[3], "elem": p[4]},
+        path = driver.save_replay(prop, ENGINE, "exit", {"property": prop, "engine": ENGINE, "case": {"macro": p[0], "exit": p[1], "n": p[2], "k": p[3], "elem": p[4], "param": p[5]},
                                                        "evidence": [line], "rendered": render(0, *p)})
         text.append("  %s: %s" % (p, line[:300]))
         text.append("VIOLATION property=%s replay=%s" % (prop, path))
